@@ -86,6 +86,7 @@ func ctors() []ctor {
 	return []ctor{
 		{Name: "FromConfig{fifo,evict,no-timeout}", Order: "fifo", Evict: true, Timeout: never, NoTimeout: true, build: noTimeout(limiter.OrderingFIFO)},
 		{Name: "FromConfig{lifo,evict,no-timeout}", Order: "lifo", Evict: true, Timeout: never, NoTimeout: true, build: noTimeout(limiter.OrderingLIFO)},
+		{Name: "FromConfig{default-ordering,evict,no-timeout}", Order: "lifo", Evict: true, Timeout: never, NoTimeout: true, build: noTimeout("")},
 		{Name: "FromConfig{fifo}", Order: "fifo", Timeout: h, build: cfg(limiter.OrderingFIFO, false)},
 		{Name: "FromConfig{fifo,evict}", Order: "fifo", Evict: true, Timeout: h, build: cfg(limiter.OrderingFIFO, true)},
 		{Name: "FromConfig{lifo}", Order: "lifo", Timeout: h, build: cfg(limiter.OrderingLIFO, false)},
